@@ -33,6 +33,7 @@ type vReplayFile struct {
 	Harness string         `json:"harness"`
 	Label   string         `json:"label"`
 	Key     string         `json:"key"`
+	Kind    string         `json:"kind"`
 	Bounds  map[string]int `json:"bounds"`
 	Vector  []vReplayVal   `json:"vector"`
 }
@@ -278,7 +279,32 @@ func vPar(f, g func()) { vParN(f, g) }
 
 func vPar3(f, g, h func()) { vParN(f, g, h) }
 
+// vParOrder: in lock-graph mode the threads of a parallel section run one
+// after the other, in the vParOrder-th permutation.
+var vParOrder int
+
 func vParN(fs ...func()) {
+	if vlkOn {
+		perms := [][]int{{0, 1, 2}, {1, 0, 2}, {0, 2, 1}, {2, 0, 1}, {1, 2, 0}, {2, 1, 0}}
+		for _, k := range perms[vParOrder%len(perms)] {
+			if k >= len(fs) {
+				continue
+			}
+			d := make(chan struct{})
+			go func(f func()) {
+				defer close(d)
+				defer func() { recover() }()
+				f()
+			}(fs[k])
+			select {
+			case <-d:
+			case <-time.After(20 * time.Second):
+				vFailures = append(vFailures, "deadlock")
+				return
+			}
+		}
+		return
+	}
 	done := make(chan struct{}, len(fs))
 	for _, f := range fs {
 		f := f
